@@ -35,7 +35,11 @@ pub enum Op {
     Trap1 { m: usize, var: usize },
     LinCheck1 { m: usize, var: usize, a: f64, b: f64 },
     Output { m: usize, path: usize, prec: usize, faults: Vec<FaultSpec> },
-    Read { into: Option<usize>, fresh_nodes: usize, path: usize, faults: Vec<FaultSpec> },
+    /// `foreign` != 0: the same reader first reads a file that `output` did not write (the acknowledged
+    /// file with a comment line in the middle / cut inside a number / with a header line / cut at a
+    /// token boundary); whatever that does (it may panic — caught — or return) is ignored, then the
+    /// reader reads the acknowledged file and must reproduce it (round 13).
+    Read { into: Option<usize>, fresh_nodes: usize, path: usize, faults: Vec<FaultSpec>, foreign: u8 },
     Set2 { i: usize, j: usize, vals: Vec<f64> },
     IdxSet2 { i: usize, j: usize, var: usize, val: f64 },
     Get2 { i: usize, j: usize },
@@ -264,6 +268,7 @@ impl C19 {
                         fresh_nodes: *rng.pick(&[0usize, 0, 1, 2, 5, 13, 30]),
                         path: rng.usize_below(3),
                         faults: gen_faults(rng, mode, false),
+                        foreign: if rng.chance(0.12) { 1 + rng.below(4) as u8 } else { 0 },
                     }
                 }
             } else if r < w_io + w_1d {
@@ -671,7 +676,7 @@ impl<'a> World<'a> {
                 self.check1(s, "linear fill")
             }
             Op::Output { m, path, prec, faults } => self.do_output(*m, *path, *prec, faults),
-            Op::Read { into, fresh_nodes, path, faults } => self.do_read(*into, *fresh_nodes, *path, faults),
+            Op::Read { into, fresh_nodes, path, faults, foreign } => self.do_read(*into, *fresh_nodes, *path, faults, *foreign),
             Op::Set2 { i, j, vals } => {
                 let (nx, ny) = (self.model2.x.len(), self.model2.y.len());
                 let (i, j) = (i % nx, j % ny);
@@ -1007,7 +1012,7 @@ impl<'a> World<'a> {
         }
     }
 
-    fn do_read(&mut self, into: Option<usize>, fresh_nodes: usize, path: usize, faults: &[FaultSpec]) -> Verdict {
+    fn do_read(&mut self, into: Option<usize>, fresh_nodes: usize, path: usize, faults: &[FaultSpec], foreign: u8) -> Verdict {
         let Some(Some(file)) = self.files.get(path).cloned() else {
             self.stats.count("skip.read_of_unwritten_or_unacknowledged_file");
             return Ok(());
@@ -1030,6 +1035,41 @@ impl<'a> World<'a> {
         let before_nodes;
         let r;
         let mut fresh: Option<Mesh1D<f64, f64>> = None;
+        if target_slot.is_none() {
+            let nodes: Vec<f64> = (0..fresh_nodes).map(|k| k as f64).collect();
+            fresh = Some(Mesh1D::<f64, f64>::new(Vector::<f64>::create(nodes), nvars));
+        }
+        if foreign != 0 {
+            // a file that output() did not write, read by the same reader first; outcome ignored
+            let good: Vec<u8> = self.disk.borrow().files.get(&p).cloned().unwrap_or_default();
+            let text = String::from_utf8_lossy(&good).into_owned();
+            let toks: Vec<&str> = text.split_whitespace().collect();
+            let half = toks.len() / 2;
+            let bad = match foreign {
+                1 => format!("{}\n# written by hand\n{}\n", toks[..half].join(" "), toks[half..].join(" ")),
+                2 => format!("{} 1.5e", toks[..half].join(" ")),
+                3 => format!("x f\n{}", text),
+                _ => toks[..(half | 1).min(toks.len())].join(" "),
+            };
+            let fp = format!("{}/foreign.dat", self.dir);
+            self.disk.borrow_mut().files.insert(fp.clone(), bad.into_bytes());
+            if self.read_bypass || self.disk.borrow().mirror {
+                self.materialise();
+            }
+            self.disk.borrow_mut().begin_op(&[]);
+            let rf = match target_slot {
+                Some(s) => {
+                    let mesh = &mut self.pool[s].as_mut().unwrap().mesh;
+                    catch(|| mesh.read(&fp))
+                }
+                None => {
+                    let mesh = fresh.as_mut().unwrap();
+                    catch(|| mesh.read(&fp))
+                }
+            };
+            self.disk.borrow_mut().end_op();
+            self.stats.count(if rf.is_err() { "probe.foreign_file_first.reader_panicked" } else { "probe.foreign_file_first.reader_returned" });
+        }
         self.disk.borrow_mut().begin_op(&armed);
         match target_slot {
             Some(s) => {
@@ -1039,11 +1079,9 @@ impl<'a> World<'a> {
                 r = catch(|| mesh.read(&p));
             }
             None => {
-                let nodes: Vec<f64> = (0..fresh_nodes).map(|k| k as f64).collect();
-                let mut mesh = Mesh1D::<f64, f64>::new(Vector::<f64>::create(nodes), nvars);
+                let mesh = fresh.as_mut().unwrap();
                 before_nodes = fresh_nodes;
                 r = catch(|| mesh.read(&p));
-                fresh = Some(mesh);
             }
         }
         let (mut hard, mut reads, mut opens) = {
@@ -1307,6 +1345,17 @@ impl Prop for C19 {
                 _ => {}
             }
         }
+        for k in 0..n {
+            if let Op::Read { foreign, .. } = &case.ops[k] {
+                if *foreign != 0 {
+                    let mut c = case.clone();
+                    if let Op::Read { foreign, .. } = &mut c.ops[k] {
+                        *foreign = 0;
+                    }
+                    out.push(c);
+                }
+            }
+        }
         // smaller grids / fewer variables
         if case.x1.len() > 2 {
             let mut c = case.clone();
@@ -1437,7 +1486,7 @@ fn op_to_json(op: &Op) -> Value {
         Op::Trap1 { m, var } => json!({"op":"trap1","m":m,"var":var}),
         Op::LinCheck1 { m, var, a, b } => json!({"op":"lincheck1","m":m,"var":var,"a_bits":f64_hex(*a),"b_bits":f64_hex(*b)}),
         Op::Output { m, path, prec, faults } => json!({"op":"output","m":m,"path":path,"precision":prec,"faults":faults_json(faults)}),
-        Op::Read { into, fresh_nodes, path, faults } => json!({"op":"read","into":into,"fresh_nodes":fresh_nodes,"path":path,"faults":faults_json(faults)}),
+        Op::Read { into, fresh_nodes, path, faults, foreign } => json!({"op":"read","into":into,"fresh_nodes":fresh_nodes,"path":path,"faults":faults_json(faults),"foreign_file_first":foreign}),
         Op::Set2 { i, j, vals } => json!({"op":"set2","i":i,"j":j,"vals_bits":f64s_hex(vals),"vals":vals}),
         Op::IdxSet2 { i, j, var, val } => json!({"op":"idxset2","i":i,"j":j,"var":var,"val_bits":f64_hex(*val)}),
         Op::Get2 { i, j } => json!({"op":"get2","i":i,"j":j}),
@@ -1466,7 +1515,7 @@ fn op_from_json(v: &Value) -> Op {
         "trap1" => Op::Trap1 { m: u("m"), var: u("var") },
         "lincheck1" => Op::LinCheck1 { m: u("m"), var: u("var"), a: hex_f64(&v["a_bits"]), b: hex_f64(&v["b_bits"]) },
         "output" => Op::Output { m: u("m"), path: u("path"), prec: u("precision"), faults: faults_from(&v["faults"]) },
-        "read" => Op::Read { into: v["into"].as_u64().map(|x| x as usize), fresh_nodes: u("fresh_nodes"), path: u("path"), faults: faults_from(&v["faults"]) },
+        "read" => Op::Read { into: v["into"].as_u64().map(|x| x as usize), fresh_nodes: u("fresh_nodes"), path: u("path"), faults: faults_from(&v["faults"]), foreign: v["foreign_file_first"].as_u64().unwrap_or(0) as u8 },
         "set2" => Op::Set2 { i: u("i"), j: u("j"), vals: hex_f64s(&v["vals_bits"]) },
         "idxset2" => Op::IdxSet2 { i: u("i"), j: u("j"), var: u("var"), val: hex_f64(&v["val_bits"]) },
         "get2" => Op::Get2 { i: u("i"), j: u("j") },
